@@ -488,7 +488,7 @@ lagrange_eval!(c10_lagrange_eval_n1, 1, false, 4);
 //@ harness: c10_lagrange_eval_n2
 //@ prop: C10
 //@ tier: quick
-//@ cost: 34
+//@ cost: 29
 //@ funcs: polynomial::poly_eval_lagrange_batched, nth_root_powers, inv_pow2
 //@ bounds: field GF(17); 2 values; every value vector and every evaluation point incl. the nodes
 //@ asserts: equals naive Lagrange interpolation + evaluation
